@@ -123,11 +123,21 @@ impl<S: IntoIterator<Item = SolvableId>> Problem<S> {
 pub(crate) struct Clauses {
     pub(crate) kinds: Vec<Clause>,
     watched_literals: Vec<Option<WatchedLiterals>>,
+    /// The literals every clause watched when it was allocated, as
+    /// `(variable, satisfying value)`.
+    #[cfg(feature = "verif-hooks")]
+    verif_initial_watches: Vec<Option<[(u32, bool); 2]>>,
 }
 
 impl Clauses {
     pub fn alloc(&mut self, watched_literals: Option<WatchedLiterals>, kind: Clause) -> ClauseId {
         let id = ClauseId::from_usize(self.kinds.len());
+        #[cfg(feature = "verif-hooks")]
+        self.verif_initial_watches
+            .push(watched_literals.as_ref().map(|w| {
+                w.watched_literals
+                    .map(|l| (l.variable().to_usize() as u32, l.satisfying_value()))
+            }));
         self.kinds.push(kind);
         self.watched_literals.push(watched_literals);
         id
@@ -487,6 +497,8 @@ impl<D: DependencyProvider, RT: AsyncRuntime> Solver<D, RT> {
 
             // Propagate decisions from assignments above
             let propagate_result = self.propagate(level);
+            #[cfg(feature = "verif-hooks")]
+            self.verif_propagate_result(&propagate_result);
 
             tracing::trace!("Propagate result: {:?}", propagate_result);
 
@@ -951,6 +963,8 @@ impl<D: DependencyProvider, RT: AsyncRuntime> Solver<D, RT> {
         loop {
             match self.propagate(level) {
                 Ok(()) => {
+                    #[cfg(feature = "verif-hooks")]
+                    self.verif_propagate_result(&Ok(()));
                     return Ok(level);
                 }
                 Err(PropagationError::Cancelled(value)) => {
@@ -961,6 +975,12 @@ impl<D: DependencyProvider, RT: AsyncRuntime> Solver<D, RT> {
                     attempted_value,
                     conflicting_clause,
                 )) => {
+                    #[cfg(feature = "verif-hooks")]
+                    self.verif_propagate_result(&Err(PropagationError::Conflict(
+                        conflicting_solvable,
+                        attempted_value,
+                        conflicting_clause,
+                    )));
                     level = self.learn_from_conflict(
                         level,
                         conflicting_solvable,
@@ -1068,6 +1088,15 @@ impl<D: DependencyProvider, RT: AsyncRuntime> Solver<D, RT> {
         if let Some(value) = self.provider().should_cancel_with_value() {
             return Err(PropagationError::Cancelled(value));
         };
+
+        #[cfg(feature = "verif-hooks")]
+        self.state
+            .decision_tracker
+            .verif_events
+            .push(crate::verif::VerifEvent::Propagate {
+                level,
+                clauses: self.state.clauses.kinds.len() as u32,
+            });
 
         // Add decisions from assertions and learned clauses. If any of these cause a
         // conflict, we will return an error.
@@ -1552,6 +1581,19 @@ impl SolverState {
 
 #[cfg(feature = "verif-hooks")]
 impl<D: DependencyProvider, RT: AsyncRuntime> Solver<D, RT> {
+    /// Logs how a call of `propagate` ended (nothing for a cancellation).
+    fn verif_propagate_result(&mut self, result: &Result<(), PropagationError>) {
+        let conflict = match result {
+            Ok(()) => None,
+            Err(PropagationError::Conflict(_, _, clause_id)) => Some(clause_id.to_usize() as u32),
+            Err(PropagationError::Cancelled(_)) => return,
+        };
+        self.state
+            .decision_tracker
+            .verif_events
+            .push(crate::verif::VerifEvent::PropagateResult(conflict));
+    }
+
     /// Returns a dump of the clause database, the variables and the
     /// assignment history of the last call to [`Solver::solve`].
     pub fn verif_dump(&self) -> crate::verif::VerifDump {
@@ -1672,6 +1714,7 @@ impl<D: DependencyProvider, RT: AsyncRuntime> Solver<D, RT> {
                 .iter()
                 .map(|(_, clause)| clause.to_usize() as u32)
                 .collect(),
+            initial_watches: state.clauses.verif_initial_watches.clone(),
         }
     }
 }
